@@ -262,7 +262,8 @@ impl<'a> Runner<'a> {
                 );
             }
             if let Some(r) = &o.removed {
-                if r.in_transfer && !r.stoppable && o.starts == r.starts_at_removal && o.sent != o.n_pk {
+                // (a faulted attempt of a faulty stream source legitimately sends nothing)
+                if r.in_transfer && !r.stoppable && o.starts == r.starts_at_removal && o.sent != o.n_pk && o.faults.get(r.starts_at_removal.saturating_sub(1) as usize).is_none() {
                     self.ctx.oracle_fail(
                         "C12:remove-cut-first-transfer",
                         &format!("object {} removed during its first transfer (no immediate stop) sent only {} of {} packets", o.toi, o.sent, o.n_pk),
@@ -372,7 +373,10 @@ fn rand_add(rng: &mut Rng, cfg: &NewSpec, now: u64, step: u64) -> AddSpec {
         10 => Some(('t', now + rng.range(0, 30) * step + rng.below(3))),
         _ => Some(('t', now.saturating_sub(rng.range(0, 5) * step))),
     };
-    AddSpec { prio, n_sym, maxc, car, start, target, allow: rng.chance(1, 3), e, bl, rem: rng.range(1, e as u64) as u16, cc: if rng.chance(1, 12) { Some(u64::MAX) } else { None }, faults: Vec::new(), rateless: None }
+    AddSpec { prio, n_sym, maxc, car, start, target, allow: rng.chance(1, 3), e, bl, rem: rng.range(1, e as u64) as u16, cc: if rng.chance(1, 12) { Some(u64::MAX) } else { None },
+        // one object in eight comes from a stream source whose first transfer attempts fail to start
+        faults: if rng.chance(1, 8) { (0..rng.range(1, 3)).map(|_| if n_sym == 0 { 0 } else { [0u64, 1, 4][rng.below(3) as usize] }).collect() } else { Vec::new() },
+        rateless: None }
 }
 
 fn random_case(r: &mut Runner, rng: &mut Rng, id: &str) {
@@ -1126,6 +1130,60 @@ fn fault_model_cases(r: &mut Runner) {
     }
 }
 
+/// `trigger_transfer_at` on an object that WAITS between two of its transfers (non-carousel, max_transfer_count >= 2, one
+/// slot held by a peer): the close-object flag must still end the object's real last transfer (C08 close-flag clause seen
+/// from the scheduler; asked for by agent benc, whose engine drives a single object)
+fn trigger_between_cases(r: &mut Runner) {
+    let mut i = 0;
+    for full in [true, false] {
+        for maxc in [2u32, 3] {
+            for (n_a, n_b) in [(3u64, 4u64), (5, 9), (1, 2)] {
+                for after in [1u64, 2] {
+                    for twice in [false, true] {
+                        if after >= maxc as u64 {
+                            continue;
+                        }
+                        i += 1;
+                        r.begin(&format!("trigbetween-{}", i));
+                        let cfg = NewSpec { full, fdt_car: (false, S), fdt_dur: 3600 * S, start_id: 1, il: 1, efdt: 1400, fits: true, queues: vec![(0, 1)] };
+                        r.op(cfg.line());
+                        let mut a = AddSpec::simple(0, n_a);
+                        a.maxc = maxc;
+                        r.op(a.line());
+                        let mut b = AddSpec::simple(0, n_b);
+                        b.maxc = 3;
+                        r.op(b.line());
+                        r.op(format!("sched publish {}", r.now));
+                        let mut left = if twice { 2 } else { 1 };
+                        for _ in 0..400 {
+                            let x = r.read();
+                            if r.dead || x == "bad-op" {
+                                break;
+                            }
+                            let waits = r.eng.objs.get(&1).map(|o| !o.in_transfer && o.stops >= after && o.removed.is_none()).unwrap_or(false);
+                            let peer = r.eng.objs.get(&2).map(|o| o.in_transfer).unwrap_or(false);
+                            if left > 0 && waits && peer {
+                                left -= 1;
+                                r.op("sched trigger 1 -".into());
+                            }
+                            if x.ends_with("none") {
+                                r.now += 5 * MS;
+                                if r.eng.objs.values().all(|o| o.gone && !o.in_transfer) {
+                                    break;
+                                }
+                            }
+                        }
+                        r.op("sched nb_transfers 1".into());
+                        r.op("sched nb_objects".into());
+                        r.drain();
+                        r.finish();
+                    }
+                }
+            }
+        }
+    }
+}
+
 /// stream sources whose seek / read fails after the object was added (engine-only oracle, see probe.rs):
 /// seek failure at the k-th transfer start, transient and permanent, read failure inside a transfer
 fn stream_fault_cases(r: &mut Runner) {
@@ -1172,6 +1230,7 @@ pub fn run(ctx: &mut Ctx, _eng: &mut dyn Engine) {
     clock_back_cases(&mut r);
     huge_cases(&mut r);
     fault_model_cases(&mut r);
+    trigger_between_cases(&mut r);
     fdt_starvation_cases(&mut r);
     empty_rateless_cases(&mut r);
     stream_fault_cases(&mut r);
